@@ -10,9 +10,9 @@ def seqs(n, maxlen, minlen=1):
 
 
 def cases_a1(thorough):
-    for s in seqs(28, 4 if thorough else 3):
+    for s in seqs(31, 4 if thorough else 3):
         yield {"alpha": "A1", "seq": s, "cmd": "x"}
-    for s in seqs(28, 3 if thorough else 2):
+    for s in seqs(31, 3 if thorough else 2):
         for cmd in ("xf", "xq", "xfi", "xfw=D", "xfiw=D", "eq1"):
             yield {"alpha": "A1", "seq": s, "cmd": cmd}
 
@@ -23,7 +23,7 @@ def cases_a2(thorough):
 
 
 def cases_b(thorough):
-    for alpha, n in (("A1", 28), ("A2", 10)):
+    for alpha, n in (("A1", 31), ("A2", 10)):
         for s in seqs(n, 3 if thorough else 2):
             for cmd in ("l", "v", "t", "p", "xn", "en", "xfn", "pq"):
                 yield {"alpha": alpha, "seq": s, "cmd": cmd}
@@ -39,26 +39,26 @@ def cases_b(thorough):
                 for perm in itertools.permutations(sub + ("n",)):
                     for w in ("", "w=D", "wD"):
                         cmd = letter + "".join(perm) + w
-                        for s in seqs(28, 1):
+                        for s in seqs(31, 1):
                             yield {"alpha": "A1", "seq": s, "cmd": cmd}
 
 
 def cases_c(thorough):
     for pre in ("inside", "outside", "dangling"):
-        for s in seqs(28, 2):
+        for s in seqs(31, 2):
             if set(s) & {0, 1, 9, 10, 11, 22, 23}:
                 for cmd in ("xf", "xq", "x"):
                     yield {"alpha": "A1", "seq": s, "cmd": cmd, "pre": pre}
 
 
-    for s in seqs(28, 2):
+    for s in seqs(31, 2):
         if set(s) & {0, 1, 22, 23}:
             for cmd in ("xf", "xq", "ef"):
                 yield {"alpha": "A1", "seq": s, "cmd": cmd, "pre": "readonly-dir"}
 
 
 def cases_d(thorough):
-    for alpha, n in (("A1", 28), ("A2", 10)):
+    for alpha, n in (("A1", 31), ("A2", 10)):
         for s in seqs(n, 2):
             for cmd in ("xfw=D", "xqw=D"):
                 yield {"alpha": alpha, "seq": s, "cmd": cmd, "pre": "dirs"}
@@ -73,7 +73,7 @@ def run(ctx):
     ctx.assumptions += ["every path-taking libc call of the tool and library is wrapped at link time, logged, and resolved at call time (parent by realpath, final component followed or not according to the call's semantics); failed attempts are not violations",
                         "the run is made as root so that nothing is protected by permissions; the canary tree next to the extraction root and the listing of their common parent are compared before and after"]
     return ctx.finish(
-        rule="'A1': all sequences up to length 3 (thorough 4) over 28 archive entries with hostile names (.., absolute, backslash and 0xFF separated, NUL-containing, through link names; read-only directory; safe and two dangerous links) under x, and up to length 2 (3) under xf, xq, xfi, xfw=D, xfiw=D, eq1; "
+        rule="'A1': all sequences up to length 3 (thorough 4) over 31 archive entries with hostile names (.., absolute, backslash and 0xFF separated, NUL-containing, through link names; read-only directory; safe and two dangerous links) under x, and up to length 2 (3) under xf, xq, xfi, xfw=D, xfiw=D, eq1; "
              "'A2': ALL sequences up to length 5 over 10 link-interplay entries (three same-named safe links, dangerous links of path length 1/3/4, files through link names); 'C' also with the pre-existing link inside a directory the unprivileged tool cannot modify (the link cannot be removed; its target outside is world-writable); 'B': every archive up to length 2 (3) under l, v, t, p, xn, en, xfn, pq, and every one-entry archive under every ordering of 'n' among up to 2 (3) of the option tokens f,i,q,q0,q1,q2,v with and without w=D: no successful mutating call; "
              "'D': w=D with same-named directories already in the working directory (the region is then root/D); 'C': pre-existing link (to a file inside, outside, dangling) at the final component of output files. Oracle at every prefix of the operation log: every successful mutating call resolves inside the root; once a dangerous link exists only unlink/symlink follow; canary tree and parent listing unchanged. non-trivial = runs with at least one successful mutating call (read-only commands: all)",
         replay_fn=lambda rep: cliprop.replay_case(rep))
